@@ -949,6 +949,12 @@ func c19Pinned() [][2]string {
 	for _, d := range []string{"uint64", "uint", "int64", "int8", "float32", "float64", "*big.Int", "big.Int", "*big.Float", "big.Float"} {
 		out = append(out, [2]string{"ni:9223372036854775808", d}, [2]string{"ni:9223372036854775813", d}, [2]string{"ni:18446744073709551615", d})
 	}
+	// negative zero in every event form into every destination: OnNegativeInt(0) is delivered as the float -0
+	for i := range c19Dsts {
+		d := c19Dsts[i].name
+		out = append(out, [2]string{"ni:0", d}, [2]string{"fl:8000000000000000", d}, [2]string{"bf:true:0:0:53", d},
+			[2]string{"df:0:-2147483648", d}, [2]string{"bdf:0:true:0:0", d}, [2]string{"pi:0", d})
+	}
 	out = append(out,
 		// UintToBigInt used to clear the low bit (repaired)
 		[2]string{"pi:9223372036854775809", "*big.Int"}, [2]string{"pi:9223372036854775809", "big.Int"}, [2]string{"pi:18446744073709551615", "*big.Int"},
@@ -1195,6 +1201,9 @@ func runC19(c *Ctx) {
 			panic(err)
 		}
 		d := c19DstByName(pw[1])
+		if !c19InScope(e.K, d) {
+			continue
+		}
 		o, v, sk, _ := c19Eval("direct", true, d, e, nil)
 		record("direct", true, d, e, nil, o, v, sk)
 		addConvCase(e, d, o, "pinned")
@@ -1261,6 +1270,8 @@ func runC19(c *Ctx) {
 		if si >= nBoundary && si%c.Pick(3, 1) != 0 {
 			continue
 		}
+		// negative zero ("-0" in CTE, the negative-integer-zero / float -0 encodings in CBE) is watched on every destination
+		pinned := si < nBoundary && (e.K == "ni" && e.N == 0 || e.K == "fl" && e.F == 0 && math.Signbit(e.F))
 		for _, format := range []string{"cbe", "cte"} {
 			var doc []byte
 			if format == "cbe" {
@@ -1296,7 +1307,7 @@ func runC19(c *Ctx) {
 			c.Dist(fmt.Sprintf("e2e/%s/%s-arrives-as-%s", format, c19KindName[e.K], c19KindName[evs[0].K]))
 			for di := range c19Dsts {
 				d := &c19Dsts[di]
-				if (si+di)%c.Pick(4, 1) != 0 {
+				if (si+di)%c.Pick(4, 1) != 0 && !pinned {
 					continue
 				}
 				o, v, sk, note := c19EvalK(format, true, d, e, doc, arrived)
@@ -1309,6 +1320,8 @@ func runC19(c *Ctx) {
 				if coqCases < coqBudget+c.Pick(200, 3000) && c19CoqFriendly(evs[0]) && o.kind != "other" && c19InScope(evs[0].K, d) &&
 					(c.Thorough() || c.Rng.Intn(100) < 6 || !v.ok && c.Rng.Intn(100) < 30) {
 					addConvCase(evs[0], d, o, format)
+				} else if pinned && c19InScope(evs[0].K, d) && o.kind != "other" {
+					addConvCase(evs[0], d, o, format+"-pinned")
 				}
 			}
 		}
